@@ -869,6 +869,8 @@ fn read_candidates(cmd: &syn::File) -> Result<(), String> {
 
 struct Handler {
     arm_passes_on: bool,
+    checks_sender: bool,
+    sender_must_equal: bool,
     checks_close: bool,
     rejects_self: bool,
     emits_event: bool,
@@ -897,6 +899,43 @@ fn read_handler(rr: &syn::File) -> Result<Handler, String> {
             }
         }
         n => return Err(format!("handle_req_resp_events: the Replicate arm calls add_keys_to_replication_fetcher {n} times")),
+    };
+    // under which conditions the arm makes that call. Three shapes are read, anything else is not translated:
+    //   * unconditionally (the request's authenticated sender is not looked at)                          -> no guard
+    //   * `if holder.as_peer_id() == Some(peer) { .. }` with `peer` of `Event::Message { message, peer }` -> guard, `==`
+    //   * the same with `!=` (acts exactly on the lists whose holder field is NOT the sender)             -> guard, `!=`
+    let mentions_peer = hw.cmps.iter().any(|(ctx, l, _, r)| in_arm(ctx) && (l.contains("Message.peer") || r.contains("Message.peer")));
+    let (checks_sender, sender_must_equal) = if arm_passes_on {
+        let conds: Vec<&String> = passes[0].ctx.iter().filter(|c| !c.starts_with("arm:")).collect();
+        match conds.len() {
+            0 => {
+                if mentions_peer {
+                    return Err("handle_req_resp_events: the Replicate arm compares the sending peer, but not as `if holder.as_peer_id() == Some(peer) { add_keys_to_replication_fetcher(holder, keys) }`".into());
+                }
+                (false, true)
+            }
+            1 => {
+                let c = conds[0].as_str();
+                let is_holder = |x: &str| x.ends_with("→Replicate.holder.as_peer_id()") && x.matches("→Replicate.holder").count() == 1;
+                let is_sender = |x: &str| x == "Some($1→Message.peer)";
+                let read = |cond: &str, op: &str| -> bool {
+                    let sides: Vec<&str> = cond.split(op).collect();
+                    sides.len() == 2 && ((is_holder(sides[0]) && is_sender(sides[1])) || (is_sender(sides[0]) && is_holder(sides[1])))
+                };
+                match c.strip_prefix("if:") {
+                    Some(cond) if !cond.contains("!=") && read(cond, "==") => (true, true),
+                    Some(cond) if read(cond, "!=") => (true, false),
+                    _ => return Err(format!("handle_req_resp_events: the Replicate arm calls add_keys_to_replication_fetcher under `{c}`, which is neither unconditional nor `if holder.as_peer_id() == Some(peer)` with the request's sending peer")),
+                }
+            }
+            _ => return Err(format!("handle_req_resp_events: the Replicate arm calls add_keys_to_replication_fetcher under several conditions {:?}", conds)),
+        }
+    } else {
+        // no call at all: the sender check cannot be read either way
+        if mentions_peer {
+            return Err("handle_req_resp_events: the Replicate arm compares the sending peer but never calls add_keys_to_replication_fetcher".into());
+        }
+        (false, true)
     };
 
     let f = impl_fn(rr, "SwarmDriver", None, "add_keys_to_replication_fetcher")?;
@@ -945,7 +984,7 @@ fn read_handler(rr: &syn::File) -> Result<Handler, String> {
     } else {
         return Err(format!("{at}: KeysToFetchForReplication is sent, but not as `send_event(KeysToFetchForReplication(result of add_keys))` when that result is non-empty"));
     };
-    Ok(Handler { arm_passes_on, checks_close, rejects_self, emits_event })
+    Ok(Handler { arm_passes_on, checks_sender, sender_must_equal, checks_close, rejects_self, emits_event })
 }
 
 fn read_closest(drv: &syn::File) -> Result<(), String> {
@@ -985,6 +1024,7 @@ pub fn generate(repo: &PathBuf) -> Result<String, String> {
     let rr = parse_file(&repo.join(rr_rel))?;
     let hd = read_handler(&rr)?;
     let (arm_passes_on, checks_close, rejects_self, emits_event) = (hd.arm_passes_on, hd.checks_close, hd.rejects_self, hd.emits_event);
+    let (checks_sender, sender_must_equal) = (hd.checks_sender, hd.sender_must_equal);
 
     let drv = parse_file(&repo.join("ant-networking/src/driver.rs"))?;
     read_closest(&drv)?;
@@ -998,6 +1038,8 @@ pub fn generate(repo: &PathBuf) -> Result<String, String> {
     s.push_str(&lean_cmp("replTooSoon", "try_interval_replication: `last_replication.elapsed() OP MIN_REPLICATION_INTERVAL_S` skips the round (a = elapsed, b = minimum)", &throttle_op)?);
     s.push_str(&lean_cmp("targetStillFresh", "try_interval_replication: `*timestamp OP now` keeps a recently served target (a = its deadline, b = clock)", &fresh_op)?);
     s.push_str(&format!("/-- the `Cmd::Replicate` arm hands the request's `holder` and `keys` to `add_keys_to_replication_fetcher` -/\ndef replicateArmPassesOn : Bool := {}\n", lean_bool(arm_passes_on)));
+    s.push_str(&format!("/-- the `Cmd::Replicate` arm makes that call only `if holder.as_peer_id() == Some(peer)`, `peer` being the authenticated sender of the request (false: the call is unconditional, the sender is not looked at) -/\ndef replicateChecksSender : Bool := {}\n", lean_bool(checks_sender)));
+    s.push_str(&format!("/-- operator of that comparison: true = `==` (acts on a list only when its holder field is the sender), false = `!=` -/\ndef replicateSenderMustEqual : Bool := {}\n", lean_bool(sender_must_equal)));
     s.push_str(&format!("/-- the handler returns early unless the holder is among `get_closest_k_value_local_peers()` -/\ndef replicateChecksCloseness : Bool := {}\n", lean_bool(checks_close)));
     s.push_str(&format!("/-- the handler returns early when the holder is this node -/\ndef replicateRejectsSelf : Bool := {}\n", lean_bool(rejects_self)));
     s.push_str(&format!("/-- a non-empty result of `add_keys` is announced as `KeysToFetchForReplication` -/\ndef replicateEmitsFetchEvent : Bool := {}\n", lean_bool(emits_event)));
